@@ -547,7 +547,7 @@ func (e *Exec) concretize(t *Term, what string) uint64 {
 		if t.IsConst() {
 			return t.val
 		}
-		if n > 64 {
+		if n > 256 { // a byte-wide index may be enumerated completely
 			panic(mkEnd("bound", "too many values for " + what))
 		}
 		var cand uint64
@@ -652,6 +652,39 @@ func (e *Exec) global(g *ssa.Global) *Object {
 	if v, ok := e.sentinel(g); ok {
 		o.v = v
 		return o
+	}
+	if p := g.Pkg; p != nil && !e.initPkgs[p.Pkg.Path()] {
+		// A package whose initialiser is not executed (pb: 77 k instructions of descriptor
+		// tables): a package-level map built from a literal with constant keys and values
+		// (the generated enum name / value tables) is still given its contents.
+		if _, isMap := o.typ.Underlying().(*types.Map); isMap {
+			if f := p.Func("init"); f != nil {
+				for _, b := range f.Blocks {
+					for _, in := range b.Instrs {
+						st, ok := in.(*ssa.Store)
+						if !ok || st.Addr != ssa.Value(g) {
+							continue
+						}
+						mk, ok := st.Val.(*ssa.MakeMap)
+						if !ok {
+							continue
+						}
+						e.nobj++
+						m := &MapObj{id: e.nobj}
+						for _, r := range *mk.Referrers() {
+							if up, ok := r.(*ssa.MapUpdate); ok {
+								k, kok := up.Key.(*ssa.Const)
+								v, vok := up.Value.(*ssa.Const)
+								if kok && vok {
+									e.mapSet(m, e.constVal(k), e.constVal(v))
+								}
+							}
+						}
+						o.v = MapV{m: m}
+					}
+				}
+			}
+		}
 	}
 	if p := g.Pkg; p != nil && e.initPkgs[p.Pkg.Path()] && !e.initDone[p] && e.cur != nil {
 		e.initDone[p] = true
